@@ -242,17 +242,47 @@ var c18PairCtx = []int{1, 2, 4, 5, 7, 10}
 
 // ---------------------------------------------------------------- fault kinds
 
-var c18RunFaults = []string{"1 / 0", "（显示：未有此名）", "抛出异常：“m”！", "【1】#5", "以（新建件）（无此法）"}
-var c18RunFaultNames = []string{"除零", "未定义名", "抛出异常", "索引越界", "对象无此方法"}
+var c18RunFaults = []string{"1 / 0", "（显示：未有此名）", "抛出异常：“m”！", "【1】#5", "以（新建件）（无此法）", "（需参法）", "令新件 = （新建造件：1、2）"}
+var c18RunFaultNames = []string{"除零", "未定义名", "抛出异常", "索引越界", "对象无此方法", "参数个数不符", "构造参数个数不符"}
 
 // c18KindNoMethod: a method that the object's type (件, defined at the top of the fault's file) does
 // not have: no call starts, so the chain ends at the line of the statement
 const c18KindNoMethod = 4
 
+// c18KindArity / c18KindCtorArity: a method (a constructor) called with the wrong number of
+// arguments: none of its body runs, so the chain ends at the line of the calling statement.  The
+// definitions stand at the top of the fault's file, behind a first definition of another method
+// (whatever is on line 1 of the file is no place where anything happened)
+const (
+	c18KindArity     = 5
+	c18KindCtorArity = 6
+)
+
 func c18DefineType(f *c18File, p c18Params) {
-	if p.Tmpl != 5 && p.Kind == c18KindNoMethod {
+	if p.Tmpl == 5 {
+		return
+	}
+	switch p.Kind {
+	case c18KindNoMethod:
 		f.add(0, "定义件：")
 		f.add(1, "其P = 1")
+	case c18KindArity:
+		f.add(0, "如何旁法？")
+		f.add(1, "输出 1")
+		f.add(0, "")
+		f.add(0, "如何需参法？")
+		f.add(1, "输入甲")
+		f.add(1, "令内甲 = 1")
+		f.add(1, "输出 内甲")
+		f.add(0, "")
+	case c18KindCtorArity:
+		f.add(0, "定义造件：")
+		f.add(1, "其P = 1")
+		f.add(0, "")
+		f.add(0, "如何新建造件？")
+		f.add(1, "输入甲")
+		f.add(1, "其P = 甲")
+		f.add(0, "")
 	}
 }
 
